@@ -103,13 +103,15 @@ inline ModelDesc randomDesc(Rng& r, const GenOpts& o, long caseIdx) {
     if (types.empty()) for (int t = 0; t < MT_Count; ++t) if (t != MT_Weld || o.allowWeld) types.push_back(t);
     int nT = (int)types.size();
     d.euler = o.forceCycle ? ((caseIdx / (2 * nT)) % 2 == 1) : r.coin(0.4);
-    if (r.coin(o.pLoneParticle)) {
+    bool loneCoin = r.coin(o.pLoneParticle);
+    bool loneForced = o.forceCycle && o.pLoneParticle > 0 && caseIdx % 23 == 11;   // the node is reached in every run of >= 12 cases
+    if (loneCoin || loneForced) {
         // the RBNodeLoneParticle specialisation: Translation on Ground, forward, identity
         // frames, no children. The other bodies hang on Ground or on each other, never on the
         // particle, and the particle is inserted at a random position among them (so that its
         // q, u and body indices differ: mobilizers with nq != nu may precede it).
         NodeDesc n; n.type = MT_Translation; n.reversed = false; n.fF = n.fM = 0; n.parent = -1; n.sub = r.next();
-        n.comAtOrigin = r.coin(0.5);
+        n.comAtOrigin = r.coin(0.5) || loneForced;   // the lone-particle node is selected only with the mass centre at the origin
         int extra = r.integer(0, std::max(0, o.minBodies - 1 + 3));
         std::vector<NodeDesc> others;
         for (int k = 0; k < extra; ++k) {
